@@ -120,6 +120,7 @@ def cmpOf (f : Func) (vs : List Val) : Cmp :=
 def pathOf (k : String) : Option Path :=
   match k with
   | "row" => some .row | "refs" => some .shared | "shared" => some .shared | "col" => some .columnar
+  | "eng" => some .shared
   | "ag_row" => some .row | "ag_sh" => some .shared | "ag_col" => some .columnar
   | _ => none
 
